@@ -274,4 +274,65 @@ class NonLabels(Sub):
         return None
 
 
-SUBS = [Columns(), Rows(), FullByColumn(), FullByRow(), NonLabels()]
+def confusables():
+    """every non-ASCII code point that some Unicode transformation (upper, lower, casefold, NFKC/NFKD
+    normalisation, digit value) maps into the ASCII label alphabet [A-Za-z0-9$]"""
+    import unicodedata
+    out = []
+    ascii_ok = set('ABCDEFGHIJKLMNOPQRSTUVWXYZabcdefghijklmnopqrstuvwxyz0123456789$')
+    for cp in range(128, 0x110000):
+        if 0xD800 <= cp <= 0xDFFF:
+            continue
+        ch = chr(cp)
+        forms = (ch.upper(), ch.lower(), ch.casefold(), unicodedata.normalize('NFKC', ch),
+                 unicodedata.normalize('NFKD', ch))
+        hit = any(f and all(c in ascii_ok for c in f) for f in forms)
+        if not hit and unicodedata.category(ch) == 'Nd':
+            hit = True
+        if hit:
+            out.append(cp)
+    return out
+
+
+class Confusables(Sub):
+    name = 'c19.unicode_confusables'
+    rule = ('every non-ASCII code point that upper/lower/casefold/NFKC/NFKD maps into [A-Za-z0-9$], and every Unicode '
+            'decimal digit, placed in the column, row and marker positions of otherwise valid labels: such a string is not '
+            'a cell label (the label alphabet is ASCII) and must decompose to nothing; non-trivial = all')
+    min_cases = 10
+    min_nontrivial = 500
+    TEMPLATES = ('%s1', 'A%s1', '%sA1', '$%s$1', 'A%s', 'A1%s', 'A%s$1', '%s', 'a%s12', 'A$%s')
+
+    def cases(self, tier, unit):
+        cps = confusables()
+        for i in range(0, len(cps), 64):
+            yield ['blk', cps[i:i + 64]]
+
+    def check(self, env, case):
+        cell = cellmod(env)
+        if case[0] == 's':
+            s = case[1]
+            env.evals += 1
+            try:
+                got = cell.extract_label(s)
+            except Exception as e:
+                return fail('extract_label(%r) raised %s' % (s, type(e).__name__), case=['s', s])
+            if got is None or len(got) != 0:
+                return fail('extract_label(%r) = %r for a string with a non-ASCII character; expected nothing' % (s, got),
+                            [], repr(got), case=['s', s])
+            return None
+        out = []
+        for cp in case[1]:
+            for t in self.TEMPLATES:
+                s = t % chr(cp)
+                env.nt()
+                f = self.check(env, ['s', s])
+                if f:
+                    out.append(f)
+                    break
+            if len(out) > 5:
+                break
+        return out
+
+
+SUBS = [Columns(), Rows(), FullByColumn(), FullByRow(), NonLabels(), Confusables()]
